@@ -1080,7 +1080,11 @@ class QuantityMeta(ClassWithDefinitionMeta):
         unit._qty_cls = cls
         if isinstance(define_as, Term):
             unit._definition = define_as
-            equiv = define_as.normalized().num_elem or ONE
+            equiv = define_as.normalized().num_elem
+            if equiv is None:
+                equiv = ONE
+            elif equiv == 0:
+                raise ValueError("The definition of a unit must not be zero.")
             if isinstance(equiv, Integral):
                 # avoid int / int -> float when scaling factors are computed
                 equiv = Decimal(equiv)
